@@ -55,9 +55,9 @@ Definition tindex_crash_statement (fx : fixes) : Prop :=
     crash_at d (tsave_effs fx d m_new) d' ->
     tindex_init d' = Some m_old \/ tindex_init d' = Some m_new.
 
-Lemma tindex_crash_atomic fs fp : tindex_crash_statement (mkFix fs true fp).
+Lemma tindex_crash_atomic fx : fx_atomic fx = true -> tindex_crash_statement fx.
 Proof.
-  intros d mo mn d' Hd J C. unfold tsave_effs in C. cbn [fx_atomic] in C.
+  intros F d mo mn d' Hd J C. unfold tsave_effs in C. rewrite F in C.
   destruct (crash_atomic _ _ _ C) as [-> | ->].
   - left. apply tindex_init_whole; [exact Hd|]. intros p Hp. apply (J p Hp).
   - right. apply tindex_init_whole; [reflexivity|]. intros p Hp. apply (J p Hp).
@@ -145,6 +145,18 @@ Definition pipes_crash_statement (fx : fixes) : Prop :=
   let md := run_steps fx (m, d) steps in
   pipes_init (killed (fst md) (snd md)) = Some (m_pipes (fst md)).
 
+Lemma drop_disk fx d p parts :
+  let d' := fold_left (fun d e => dapply fx e d) (drop_effs fx p parts) d in
+  d_tdat d' = Some (Whole parts) /\ d_jrnl d' = remove_key p (d_jrnl d) /\ d_pdat d' = d_pdat d /\ d_cdat d' = d_cdat d.
+Proof.
+  unfold drop_effs. destruct (fx_drop fx); cbn [fold_left dapply].
+  - split; [apply tsave_tdat|]. split; [rewrite tsave_jrnl; reflexivity|].
+    destruct (tsave_other fx (mkDisk (d_tdat d) (d_tbak d) (d_cdat d) (d_pdat d) (remove_key p (d_jrnl d)) (d_next d)) parts) as (A & B & _).
+    split; [exact B|exact A].
+  - cbn [d_tdat d_jrnl d_pdat d_cdat]. split; [apply tsave_tdat|]. split; [rewrite tsave_jrnl; reflexivity|].
+    destruct (tsave_other fx d parts) as (A & B & _). split; [exact B|exact A].
+Qed.
+
 Lemma do_write_pdat fx m d p ts : d_pdat d = Some (Whole (m_pipes m)) ->
   d_pdat (snd (do_write fx m d p ts)) = Some (Whole (m_pipes (fst (do_write fx m d p ts)))).
 Proof.
@@ -161,18 +173,18 @@ Proof.
   - cbn. exact H.
   - destruct (mem_nat n (m_pipes m)); [exact H|]. rewrite F. reflexivity.
   - destruct (mem_nat n (m_pipes m)); [|exact H]. rewrite F. reflexivity.
-  - destruct (mem_nat p (m_parts m)); [|exact H]. cbn [fst snd m_pipes d_pdat].
-    rewrite (proj1 (proj2 (tsave_other fx d _))). exact H.
+  - destruct (mem_nat p (m_parts m)); [|exact H]. cbn [fst snd m_pipes].
+    rewrite (proj1 (proj2 (proj2 (drop_disk fx d p _)))). exact H.
   - destruct (mem_nat s (m_parts m)); [|exact H]. apply do_write_pdat. exact H.
 Qed.
 
-Lemma pipes_crash_fixed fs fa : pipes_crash_statement (mkFix fs fa true).
+Lemma pipes_crash_fixed fx : fx_pipes fx = true -> pipes_crash_statement fx.
 Proof.
-  intros m d steps H. cbn zeta. unfold killed, pipes_init.
+  intros F m d steps H. cbn zeta. unfold killed, pipes_init.
   assert (G : forall l md, d_pdat (snd md) = Some (Whole (m_pipes (fst md))) ->
-              d_pdat (snd (run_steps (mkFix fs fa true) md l)) = Some (Whole (m_pipes (fst (run_steps (mkFix fs fa true) md l))))).
+              d_pdat (snd (run_steps fx md l)) = Some (Whole (m_pipes (fst (run_steps fx md l))))).
   { induction l as [|s l IH]; intros [m0 d0] H0; [exact H0|]. cbn [run_steps fold_left]. apply IH.
-    apply (do_step_pdat (mkFix fs fa true) m0 d0 s eq_refl H0). }
+    apply (do_step_pdat fx m0 d0 s F H0). }
   rewrite (G steps (m, d) H). reflexivity.
 Qed.
 
@@ -283,11 +295,11 @@ Proof.
     cbn [map fst]. rewrite <- (IH ND'). split; [intros [C|C]; [congruence|exact C]|intros C; right; exact C].
 Qed.
 
-Lemma clean_with_sync fa fp : clean_statement (mkFix true fa fp).
+Lemma clean_with_sync fx : fx_sync fx = true -> clean_statement fx.
 Proof.
-  intros m d (Ht & Hj & Hb & NDb & Hc) ND.
+  intros F m d (Ht & Hj & Hb & NDb & Hc) ND.
   destruct (flush_fold_spec (m_cur m) (m_buf m) NDb Hc (d_jrnl d) ND) as [N1 E1].
-  unfold graceful. cbn [fx_sync]. unfold flush_all. fold (flush_fold (m_cur m) (m_buf m) (d_jrnl d)).
+  unfold graceful. rewrite F. unfold flush_all. fold (flush_fold (m_cur m) (m_buf m) (d_jrnl d)).
   set (j1 := flush_fold (m_cur m) (m_buf m) (d_jrnl d)) in *. cbn [m_hull m_pipes d_tdat d_tbak d_jrnl d_next].
   set (d1 := mkDisk (d_tdat d) (d_tbak d) (Some (Whole (m_hull m))) (Some (Whole (m_pipes m))) j1 (d_next d)).
   assert (J1 : forall p, In p (with_data d1) -> In p (m_parts m)).
@@ -295,7 +307,7 @@ Proof.
     destruct (events_of p (d_jrnl d)) eqn:Ev.
     - cbn in Hp. apply Hb. unfold get_list in Hp. destruct (lookup p (m_buf m)); congruence.
     - apply Hj. apply (with_data_events d p ND). congruence. }
-  destruct (start_whole (mkFix true fa fp) d1 (m_parts m) (m_pipes m) Ht J1 eq_refl N1) as (m' & d' & S & P1 & P2 & _ & E & _).
+  destruct (start_whole fx d1 (m_parts m) (m_pipes m) Ht J1 eq_refl N1) as (m' & d' & S & P1 & P2 & _ & E & _).
   exists m', d'. split; [exact S|]. split; [exact P1|]. split; [exact P2|].
   intros p. rewrite E. cbn [d1 d_jrnl]. rewrite E1. reflexivity.
 Qed.
@@ -305,20 +317,20 @@ Definition pipes_save_crash_statement (fx : fixes) : Prop :=
   forall d l_old l_new d', pipes_init d = Some l_old -> pcrash_at fx d l_new d' ->
   pipes_init d' = Some l_old \/ pipes_init d' = Some l_new.
 
-Lemma pipes_save_crash_atomic fs fa : pipes_save_crash_statement (mkFix fs fa true).
+Lemma pipes_save_crash_atomic fx : fx_pipes fx = true -> pipes_save_crash_statement fx.
 Proof.
-  intros d lo ln d' H C. inversion C as [| |k F]; subst.
+  intros F0 d lo ln d' H C. inversion C as [| |k F]; subst.
   - left. exact H.
   - right. reflexivity.
-  - discriminate F.
+  - congruence.
 Qed.
 
 (* ---------- the crash-shaped states of the savers, as the correspondence check applies them ---------- *)
 Definition saver_crash (g : surgery) : Prop :=
   match g with GTRenamed | GTTorn _ | GPTorn _ | GPDrop => True | _ => False end.
 
-Lemma saver_crash_harmless fs prev d g : saver_crash g -> apply_surgery (mkFix fs true true) prev d g = d.
-Proof. destruct g; cbn; intros H; try destruct H; reflexivity. Qed.
+Lemma saver_crash_harmless fx prev d g : fx_atomic fx = true -> fx_pipes fx = true -> saver_crash g -> apply_surgery fx prev d g = d.
+Proof. intros Fa Fp. destruct g; cbn; rewrite ?Fa, ?Fp; intros H; try destruct H; reflexivity. Qed.
 
 (* ---------- [consistent] and [keys_nodup] hold of every state a server can be in ---------- *)
 Lemma tindex_init_Some d m : tindex_init d = Some m -> forall p, In p (with_data d) -> In p m.
@@ -484,16 +496,17 @@ Proof.
     destruct C as (Ht & Hj & Hb & NDb & Hc).
     assert (Fin : forall q, q <> p -> In q (m_parts m) -> In q (filter (fun x => negb (Nat.eqb x p)) (m_parts m))).
     { intros q N I. apply filter_In. split; [exact I|]. apply negb_true_iff. apply Nat.eqb_neq. exact N. }
+    destruct (drop_disk fx d p (filter (fun x => negb (Nat.eqb x p)) (m_parts m))) as (DT & DJ & _ & _).
     split; [split; [|split; [|split; [|split]]]|].
-    + cbn [d_tdat m_parts]. apply tsave_tdat.
-    + cbn [m_parts]. intros q Hq. unfold with_data in Hq. cbn [d_jrnl] in Hq. rewrite tsave_jrnl in Hq.
+    + cbn [m_parts]. exact DT.
+    + cbn [m_parts]. intros q Hq. unfold with_data in Hq. rewrite DJ in Hq.
       apply with_data_remove_key in Hq as [N I]. apply Fin; [exact N|]. apply Hj. exact I.
     + cbn [m_parts m_buf]. intros q Hq. apply lookup_Some_keys in Hq. apply remove_key_keys in Hq as [N I].
       apply Fin; [exact N|]. apply Hb. apply lookup_Some_keys. exact I.
     + cbn [m_buf]. apply remove_key_nodup. exact NDb.
     + cbn [m_buf m_cur]. intros q Hq. apply remove_key_keys in Hq as [N I].
       rewrite lookup_remove_key_other by exact N. apply Hc. exact I.
-    + unfold keys_nodup. cbn [d_jrnl]. rewrite tsave_jrnl. apply remove_key_nodup. exact ND.
+    + unfold keys_nodup. rewrite DJ. apply remove_key_nodup. exact ND.
   - cbn [do_step]. destruct (mem_nat s (m_parts m)); [|split; assumption].
     apply do_write_consistent; assumption.
 Qed.
@@ -523,7 +536,7 @@ Lemma drop_then_restart m d p : consistent m d -> keys_nodup d ->
                 ~ In p (m_parts m') /\ (forall q, q <> p -> (In q (m_parts m') <-> In q (m_parts m))).
 Proof.
   intros C ND md. destruct (do_step_consistent code_fix m d (SDrop p) C ND) as [C1 N1]. fold md in C1, N1.
-  destruct (clean_with_sync true true (fst md) (snd md) C1 N1) as (m' & d' & S & P & _ & _).
+  destruct (clean_with_sync code_fix eq_refl (fst md) (snd md) C1 N1) as (m' & d' & S & P & _ & _).
   exists m', d'. split; [exact S|]. rewrite P. unfold md. cbn [do_step].
   destruct (mem_nat p (m_parts m)) eqn:E; cbn [fst m_parts].
   - split.
@@ -546,4 +559,149 @@ Lemma drain_catches_up fx m d s t : mem_nat s (m_parts m) = true ->
   let md := do_step fx (m, d) (SDrain s t) in acked (fst md) (snd md) t = events_of s (d_jrnl d).
 Proof.
   intros R P md. unfold md. cbn [do_step]. rewrite R. rewrite do_write_acked. rewrite P at 1. apply firstn_skipn.
+Qed.
+
+(* ---------- a crash between the two effects of a partition removal ---------- *)
+Definition drop_crash_statement (fx : fixes) : Prop :=
+  forall m d p d', consistent m d -> keys_nodup d -> In p (m_parts m) ->
+  let parts' := filter (fun x => negb (Nat.eqb x p)) (m_parts m) in
+  dcrash_at fx d (drop_effs fx p parts') d' ->
+  tindex_init d' = Some (m_parts m) \/ tindex_init d' = Some parts'.
+
+Lemma with_data_remove_key_disk a b c e n p j q :
+  In q (with_data (mkDisk a b c e (remove_key p j) n)) -> q <> p /\ In q (with_data (mkDisk a b c e j n)).
+Proof. unfold with_data. cbn [d_jrnl]. apply with_data_remove_key. Qed.
+
+Lemma drop_crash_data_first fx : fx_drop fx = true -> drop_crash_statement fx.
+Proof.
+  intros F m d p d' (Ht & Hj & _) ND Hp parts' C. unfold drop_effs in C. rewrite F in C.
+  assert (Fin : forall q, q <> p -> In q (m_parts m) -> In q parts').
+  { intros q N I. apply filter_In. split; [exact I|]. apply negb_true_iff. apply Nat.eqb_neq. exact N. }
+  inversion C as [|? ? ? ? C1]; subst.
+  - left. apply tindex_init_whole; [exact Ht|exact Hj].
+  - cbn [dapply] in C1. inversion C1 as [|? ? ? ? C2]; subst.
+    + left. apply tindex_init_whole; [exact Ht|]. intros q Hq. apply with_data_remove_key_disk in Hq as [_ I].
+      apply Hj. destruct d; exact I.
+    + cbn [dapply] in C2. inversion C2; subst. right. apply tindex_init_whole; [apply tsave_tdat|].
+      intros q Hq. unfold with_data in Hq. rewrite tsave_jrnl in Hq. cbn [d_jrnl] in Hq.
+      apply with_data_remove_key in Hq as [N I]. apply Fin; [exact N|]. apply Hj. exact I.
+Qed.
+
+(* ---------- the time-index snapshot is consumed by the start: a crash leaves none ---------- *)
+Lemma do_write_cdat fx m d p ts : d_cdat (snd (do_write fx m d p ts)) = d_cdat d.
+Proof.
+  unfold do_write. destruct (negb (mem_nat p (m_parts m))); destruct (lookup p (m_cur m)); cbn [snd d_cdat];
+    rewrite ?(proj1 (tsave_other fx d _)); reflexivity.
+Qed.
+
+Lemma do_step_cdat fx m d s : d_cdat (snd (do_step fx (m, d) s)) = d_cdat d.
+Proof.
+  destruct s as [p ts| |n|n|p|s t]; cbn [do_step].
+  - apply do_write_cdat.
+  - reflexivity.
+  - destruct (mem_nat n (m_pipes m)); [reflexivity|]. destruct (fx_pipes fx); reflexivity.
+  - destruct (mem_nat n (m_pipes m)); [|reflexivity]. destruct (fx_pipes fx); reflexivity.
+  - destruct (mem_nat p (m_parts m)); [|reflexivity]. cbn [snd]. apply (proj2 (proj2 (proj2 (drop_disk fx d p _)))).
+  - destruct (mem_nat s (m_parts m)); [|reflexivity]. apply do_write_cdat.
+Qed.
+
+Lemma run_steps_cdat fx l : forall m d, d_cdat (snd (run_steps fx (m, d) l)) = d_cdat d.
+Proof.
+  induction l as [|s l IH]; intros m d; [reflexivity|]. cbn [run_steps fold_left].
+  pose proof (do_step_cdat fx m d s) as E. destruct (do_step fx (m, d) s) as [m1 d1]. cbn [snd] in E.
+  change (fold_left (do_step fx) l (m1, d1)) with (run_steps fx (m1, d1) l). rewrite IH. exact E.
+Qed.
+
+Lemma reachable_no_snapshot fx m d : fx_snap fx = true -> reachable fx m d -> d_cdat d = None.
+Proof.
+  intros F [d0 m0 d0' l ND S]. rewrite run_steps_cdat. unfold start in S.
+  destruct (tindex_init d0); [|discriminate S]. destruct (pipes_init d0); [|discriminate S].
+  injection S as _ <-. rewrite (proj1 (tsave_other fx _ _)). cbn [d_cdat]. rewrite F. reflexivity.
+Qed.
+
+Definition chunk_id (pe : nat * (nat * list Z)) : nat := fst (snd pe).
+(* chunk ids are unique in a directory (chunk.NewId is time based) *)
+Definition chunk_ids_unique (d : disk) : Prop := NoDup (map chunk_id (d_jrnl d)).
+
+Lemma NoDup_map_filter {A B} (g : A -> B) (f : A -> bool) l : NoDup (map g l) -> NoDup (map g (filter f l)).
+Proof.
+  induction l as [|x l IH]; intros ND; [constructor|]. cbn [map] in ND. inversion ND as [|? ? Hx ND']. subst.
+  cbn [filter]. destruct (f x); [|exact (IH ND')]. cbn [map]. constructor; [|exact (IH ND')].
+  intros C. apply Hx. apply in_map_iff in C as [y [E Hy]]. apply filter_In in Hy as [Hy _].
+  apply in_map_iff. exists y. split; assumption.
+Qed.
+
+Lemma light_fill_keeps j : forall s c h, lookup c s = Some h -> lookup c (light_fill j s) = Some h.
+Proof.
+  unfold light_fill. induction j as [|[q [c0 e]] j IH]; intros s c h L; [exact L|]. cbn [fold_left].
+  apply IH. destruct (lookup c0 s) eqn:L0; [exact L|]. destruct (light_hull e); [|exact L].
+  rewrite lookup_update_other; [exact L|]. intros ->. congruence.
+Qed.
+
+Lemma light_fill_spec j : forall s p cid evs, NoDup (map chunk_id j) ->
+  (forall pe, In pe j -> lookup (chunk_id pe) s = None) -> In (p, (cid, evs)) j -> evs <> [] ->
+  lookup cid (light_fill j s) = light_hull evs.
+Proof.
+  induction j as [|[q [c0 e]] j IH]; intros s p cid evs ND Hs I NE; [destruct I|].
+  cbn [map] in ND. inversion ND as [|? ? Hc ND']. subst. unfold light_fill. cbn [fold_left].
+  fold (light_fill j). pose proof (Hs (q, (c0, e)) (or_introl eq_refl)) as H0. unfold chunk_id in H0. cbn [fst snd] in H0. rewrite H0.
+  destruct I as [E|I].
+  - injection E as -> -> ->. destruct evs as [|e0 evs]; [congruence|]. cbn [light_hull].
+    apply light_fill_keeps. apply lookup_update_same.
+  - assert (N : c0 <> cid).
+    { intros ->. apply Hc. apply in_map_iff. exists (p, (cid, evs)). split; [reflexivity|exact I]. }
+    destruct (light_hull e) as [h|].
+    + apply (IH _ p cid evs ND'); [|exact I|exact NE]. intros pe Hpe.
+      rewrite lookup_update_other.
+      * apply Hs. right. exact Hpe.
+      * intros E. apply Hc. rewrite <- E. apply in_map_iff. exists pe. split; [reflexivity|exact Hpe].
+    + apply (IH _ p cid evs ND'); [|exact I|exact NE]. intros pe Hpe. apply Hs. right. exact Hpe.
+Qed.
+
+Lemma lookup_In {A} p (v : A) l : lookup p l = Some v -> In (p, v) l.
+Proof.
+  induction l as [|[q w] l IH]; cbn [lookup]; [discriminate|]. destruct (Nat.eqb q p) eqn:E.
+  - apply Nat.eqb_eq in E. subst. intros [= ->]. left. reflexivity.
+  - intros H. right. exact (IH H).
+Qed.
+
+Lemma lookup_map_cur p (j : list (nat * (nat * list Z))) :
+  lookup p (map (fun pe => (fst pe, fst (snd pe))) j) = match lookup p j with Some (c, _) => Some c | None => None end.
+Proof.
+  induction j as [|[q [c e]] j IH]; [reflexivity|]. cbn [map lookup fst snd]. destruct (Nat.eqb q p); [reflexivity|exact IH].
+Qed.
+
+(* a start without a snapshot: the hull of every chunk with data is rebuilt from the chunk *)
+Lemma start_no_snapshot_hull fx d m' d' p : d_cdat d = None -> chunk_ids_unique d -> start fx d = Some (m', d') ->
+  events_of p (d_jrnl d') <> [] -> hull_of p m' = light_hull (events_of p (d_jrnl d')).
+Proof.
+  intros Hc U S NE. unfold start in S.
+  destruct (tindex_init d); [|discriminate S]. destruct (pipes_init d); [|discriminate S].
+  injection S as <- <-. rewrite tsave_jrnl in *. cbn [d_jrnl] in *.
+  set (j := filter has_data (d_jrnl d)) in *. unfold hull_of. cbn [m_cur m_hull].
+  rewrite lookup_map_cur. unfold events_of in *. destruct (lookup p j) as [[c e]|] eqn:L; [|congruence].
+  unfold cindex_init. rewrite Hc. cbn [prune filter].
+  apply (light_fill_spec j [] p c e).
+  - apply NoDup_map_filter. exact U.
+  - intros pe _. reflexivity.
+  - apply lookup_In. exact L.
+  - exact NE.
+Qed.
+
+Definition range_after_crash_statement (fx : fixes) : Prop :=
+  forall m d, reachable fx m d -> chunk_ids_unique d -> (forall p, StronglySorted Z.le (events_of p (d_jrnl d))) ->
+  forall m' d', start fx (killed m d) = Some (m', d') -> forall p t lo hi,
+  In t (events_of p (d_jrnl d')) -> in_range lo hi t = true ->
+  In t (range_query (hull_of p m') (events_of p (d_jrnl d')) lo hi).
+
+Lemma range_after_crash_consumed fx : fx_snap fx = true -> range_after_crash_statement fx.
+Proof.
+  intros F m d R U Srt m' d' S p t lo hi It Ir. unfold killed in S.
+  destruct (reachable_consistent fx m d R) as [_ ND].
+  assert (E : events_of p (d_jrnl d') = events_of p (d_jrnl d)).
+  { unfold start in S. destruct (tindex_init d); [|discriminate S]. destruct (pipes_init d); [|discriminate S].
+    injection S as _ <-. rewrite tsave_jrnl. cbn [d_jrnl]. apply events_of_filter. exact ND. }
+  rewrite (start_no_snapshot_hull fx d m' d' p (reachable_no_snapshot fx m d F R) U S).
+  - rewrite E in *. apply range_rebuilt; [apply Srt|exact It|exact Ir].
+  - intros C. rewrite C in It. destruct It.
 Qed.
